@@ -186,11 +186,11 @@ def terms(thorough):
     for trio in (("str", "int", "float"), ("int", "bool", "none"), ("enum", "lit", "int")):
         d1 += [("union",) + p for p in itertools.permutations(trio)]
     d2 = []
-    for leaf in ("int", "str", "bool", "float") + (("enum", "path", "pos", "lit") if thorough else ()):
+    for leaf in ("int", "str") + (("bool", "float", "enum", "path", "pos", "lit") if thorough else ()):
         d2 += [("list", ("opt", leaf)), ("list", ("list", leaf)), ("dict", ("list", leaf)), ("opt", ("list", leaf)), ("opt", ("dict", leaf)),
                ("list", ("dict", leaf)), ("dict", ("dict", leaf)), ("dict", ("opt", leaf)), ("vtuple", ("list", leaf)), ("opt", ("vtuple", leaf)),
                ("list", ("vtuple", leaf)), ("opt", ("set", leaf))]
-    for a, b in (("int", "str"), ("str", "int"), ("int", "bool"), ("bool", "int"), ("float", "int"), ("int", "float"), ("bool", "str"), ("str", "bool")):
+    for a, b in (("int", "str"), ("str", "int"), ("int", "bool"), ("float", "int")) + ((("bool", "int"), ("int", "float"), ("bool", "str"), ("str", "bool")) if thorough else ()):
         d2 += [("list", ("union", a, b)), ("dict", ("union", a, b)), ("union", ("list", a), b), ("union", b, ("list", a)), ("union", ("list", a), ("list", b)),
                ("union", ("dict", a), ("list", b)), ("opt", ("union", a, b)), ("union", ("opt", a), b), ("tuple", ("union", a, b), ("list", a))]
     d2 += [("tuple", ("list", "int"), ("dict", "str")), ("tuple", ("opt", "int"), ("opt", "str")), ("union", ("tuple", "int", "int"), ("list", "str")),
@@ -546,11 +546,11 @@ def multi_outcomes(group, items, tmp, jsonnet):
 
 
 def run_multi(group, items, tmp, jsonnet):
-    def bad(its):
-        doc, out = multi_outcomes(group, its, tmp, jsonnet)
+    def bad(its, jn=False):
+        doc, out = multi_outcomes(group, its, tmp, jn)
         return doc, out, len(classes(out, list(out))) > 1
 
-    doc, out, failed = bad(items)
+    doc, out, failed = bad(items, jsonnet)
     viols = []
     if failed:
         small = items
@@ -612,11 +612,11 @@ def enumerate_settings(thorough, rng):
                     continue  # bound: a top-level null at a type without None only at the representative types NULL_TYPES
                 n += 1
                 # position: flat for every setting; in the quick tier the dotted group and the dataclass group for every third one each
-                jsonnet = (i == 1 and depth <= 1) or depth == 0 or (thorough and i % 3 == 0)
+                jsonnet = (i == 1 and depth <= 1 and (thorough or t[0] != "union")) or depth == 0 or (thorough and i % 3 == 0)
                 yield (t, v, "k", jsonnet, thorough)
-                if thorough or n % 3 == 0:
+                if thorough or n % 4 == 0:
                     yield (t, v, "g.k", jsonnet and depth == 0, thorough)
-                if thorough or n % 3 == 1:
+                if thorough or n % 4 == 2:
                     yield (t, v, "dc.k", jsonnet and depth == 0, thorough)
     if thorough:
         # seeded random values: mutate conforming values of random depth-2 terms at one random position
@@ -669,9 +669,9 @@ def main():
                       "or stays inside a mapping key) x every order of the keys, through parse_string, parse_object, --cfg string (yaml, json, omegaconf), "
                       "--cfg file, parse_path, env config (yaml), parse_string (jsonnet), against the same options on the command line"
                       % (len(leaves), len(d1), len(d2), len(NULL_TYPES), len(TRICKY),
-                         ", dotted group and dataclass group" if h.thorough else " (every setting), dotted group and dataclass group (every third setting each)",
+                         ", dotted group and dataclass group" if h.thorough else " (every setting), dotted group and dataclass group (every fourth setting each)",
                          "all channels" if h.thorough else "argv, parse_string, parse_object at the flat key",
-                         "the leaf types, one value of every depth-1 type" + (", every third value of every type at the flat key" if h.thorough else ""), "; + 2000 seeded random mutated values" if h.thorough else "")))
+                         "the leaf types, one value of every depth-1 type" + ("" if h.thorough else " that is not a Union") + (", every third value of every type at the flat key" if h.thorough else ""), "; + 2000 seeded random mutated values" if h.thorough else "")))
 
 
 def collect(h, results, stats):
